@@ -200,8 +200,8 @@ class Case:
                 L.append("  a%d%s = %s;" % (i, sfx, lit(sk, vnum(i, j))[0]))
         call = "callee_%d(%s)" % (n, ", ".join("a%d" % i for i in range(len(self.args))))
         inner = "(%s, 1L)" % call if self.ret == "v" else "((r = %s), 1L)" % call
-        if self.ret != "v":
-            L.append("  %s r;" % ctype(self.ret))
+        if self.ret != "v":        # a narrow return value is consumed as a long, without a store to a narrow object in between
+            L.append("  %s r;" % ("long" if self.ret in NARROW else ctype(self.ret)))
         L.append("  long sink; SAVE_REGS;")
         if self.ctx == "nest":
             L.append("  sink = id3(vv1, %s, vv2);" % inner)
